@@ -94,6 +94,15 @@ def all_rows():
         for ip, dns, uri, req_host, req_node in itertools.product(SAN4, SAN4, SAN4, (False, True), (False, True)):
             rows.append(dict(local_can=local_can, peer_can=peer_can, require=require, hs_ok=hs_ok, naming=naming,
                              ip=ip, dns=dns, uri=uri, req_host=req_host, req_node=req_node))
+        # reserved bits in the peer's contact header flags are ignored: same outcome as without them
+        for extra in (0x02, 0x80, 0xfe):
+            rows.append(dict(local_can=local_can, peer_can=peer_can, require=require, hs_ok=hs_ok, naming=naming,
+                             ip='match', dns='absent', uri='match', req_host=False, req_node=(extra == 0x80), extra_flags=extra))
+        if naming == 'passive':
+            # a TLS client that presents no certificate at all (permitted by the handshake): every identifier is absent
+            for req_host, req_node in itertools.product((False, True), (False, True)):
+                rows.append(dict(local_can=local_can, peer_can=peer_can, require=require, hs_ok=hs_ok, naming=naming,
+                                 ip='absent', dns='absent', uri='absent', req_host=req_host, req_node=req_node, cert='none'))
         # a peer that announces a zero-length node ID: any URI identifier in its certificate then contradicts the announcement
         for uri, req_node in itertools.product(SAN4, (False, True)):
             rows.append(dict(local_can=local_can, peer_can=peer_can, require=require, hs_ok=hs_ok, naming=naming,
@@ -147,7 +156,7 @@ def run_row(row, obs):
     peer_ip = '10.0.0.1' if passive else PEER_IP
     cfg = th.make_config('dtn://under-test/', tls_enable=row['local_can'], require_tls=row['require'],
                          require_host_authn=row['req_host'], require_node_authn=row['req_node'], segment_size_tx_initial=10)
-    ctx = vnet.FakeSslContext(handshake_fails=not row['hs_ok'], peer_cert_der=make_cert(row['ip'], row['dns'], row['uri'], peer_ip))
+    ctx = vnet.FakeSslContext(handshake_fails=not row['hs_ok'], peer_cert_der=(None if row.get('cert') == 'none' else make_cert(row['ip'], row['dns'], row['uri'], peer_ip)))
     cfg.get_ssl_context = lambda: ctx
     if passive:
         sock_peer, sock_e = sim.net.tcp_pair('P', 'E', ('10.0.0.1', 40001), ('10.0.0.9', 4556))
@@ -170,7 +179,7 @@ def run_row(row, obs):
         msgs, _pos, status = tw.parse_stream(sock_e.tx.all_bytes())
         return [m for (m, _e) in msgs], status
 
-    write(tw.encode(dict(type='contact', flags=tw.CAN_TLS if row['peer_can'] else 0)))
+    write(tw.encode(dict(type='contact', flags=(tw.CAN_TLS if row['peer_can'] else 0) | row.get('extra_flags', 0))))
     sim.settle(20000)
     write(tw.encode(dict(type='SESS_INIT', keepalive=0, segment_mru=2 ** 20, transfer_mru=2 ** 30, nodeid=(b'' if row.get('announce') == 'empty' else PEER_NODE.encode('utf8')), ext=[])))
     sim.settle(20000)
@@ -301,4 +310,5 @@ def run_case(case):
 def _short(row):
     return 'can %s/%s req %s hs %s %s ip:%s dns:%s uri:%s host:%s node:%s' % (
         row['local_can'], row['peer_can'], row['require'], row['hs_ok'], row['naming'], row['ip'], row['dns'], row['uri'], row['req_host'], row['req_node']) + (
-        ' announce:empty' if row.get('announce') == 'empty' else '')
+        ' announce:empty' if row.get('announce') == 'empty' else '') + (' flags+0x%02x' % row['extra_flags'] if row.get('extra_flags') else '') + (
+        ' cert:none' if row.get('cert') == 'none' else '')
